@@ -4,6 +4,7 @@
 //   harness async <reps>         async() over int / long string / vector<int> / slow-logging type
 //   harness asynctask <reps> <type>  AsyncTask<T> over the same types + lifetime-instrumented payload
 //   harness destroy <reps>       destroy an AsyncTask while its task still runs
+//   harness parkburst <T> <N>    T tasking threads, T-1 workers parked, burst of N > pipe size from the caller
 //   harness onethread            tasking system initialised with 1 thread, one schedule(), no waiting
 #include <algorithm>
 #include <atomic>
@@ -20,6 +21,7 @@
 #include <string>
 #include <thread>
 #include <vector>
+#include <unistd.h>
 
 #include "rkcommon/tasking/AsyncTask.h"
 #include "rkcommon/tasking/async.h"
@@ -353,12 +355,98 @@ static int mode_onethread()
   return 0;
 }
 
+
+// ------------------------------- more pending schedule() calls than the pipe has slots
+// initTaskingSystem(T); park all T-1 workers in scheduled closures spinning on a flag; schedule a burst of N
+// counted closures from this thread (internal backend: the 256-slot pipe fills up, the rest must be run inline
+// by the writer); release the workers; bounded wait for quiescence with this thread idle; every counter == 1.
+struct Token
+{
+  static std::atomic<int> live;
+  Token() { live++; }
+  ~Token() { live--; }
+};
+std::atomic<int> Token::live{0};
+
+static int mode_parkburst(int T, int n)
+{
+  initTaskingSystem(T);
+  int threads = numTaskingThreads();
+  std::atomic<int> *parked = new std::atomic<int>(0);
+  std::atomic<int> *release = new std::atomic<int>(0);
+  std::atomic<int> *parkers_done = new std::atomic<int>(0);
+  int want_parked = 0;
+#if defined(RKCOMMON_TASKING_TBB) || defined(RKCOMMON_TASKING_OMP) || defined(RKCOMMON_TASKING_INTERNAL)
+  want_parked = T - 1;   // (Debug runs closures synchronously: nothing to park)
+#endif
+  for (int k = 0; k < want_parked; ++k)
+    schedule([=]() {
+      (*parked)++;
+      auto t0 = clk::now();
+      while (release->load() == 0 && ms_since(t0) < 30000)   // safety cut-off: never spin for ever
+        std::this_thread::yield();
+      (*parkers_done)++;
+    });
+  auto t0 = clk::now();
+  while (parked->load() < want_parked && ms_since(t0) < 3000)
+    sleep_ms(1);
+  int parked_seen = parked->load();
+
+  std::vector<std::atomic<int>> *counters = new std::vector<std::atomic<int>>(n);
+  for (auto &c : *counters)
+    c = 0;
+  int main_inline = 0;
+  std::thread::id me = std::this_thread::get_id();
+  std::atomic<int> *inline_runs = new std::atomic<int>(0);
+  for (int i = 0; i < n; ++i) {
+    auto tok = std::make_shared<Token>();
+    auto heap = std::make_shared<std::vector<int>>(4 + (i % 3), i);
+    schedule([=]() {
+      (void)tok;
+      if (std::this_thread::get_id() == me)
+        (*inline_runs)++;
+      (*counters)[i] += (int)((*heap)[0] == i);
+    });
+  }
+  int done_before_release = 0;
+  for (auto &c : *counters)
+    done_before_release += c.load() >= 1;
+  (void)main_inline;
+  release->store(1);
+  t0 = clk::now();
+  for (;;) {   // watchdog: bounded, this thread makes no tasking call
+    int done = 0;
+    for (auto &c : *counters)
+      done += c.load() >= 1;
+    if ((done == n && parkers_done->load() == want_parked) || ms_since(t0) > 6000)
+      break;
+    sleep_ms(2);
+  }
+  int waited = (int)ms_since(t0);
+  sleep_ms(80);
+  int zero = 0, once = 0, multi = 0, first_bad = -1;
+  for (int i = 0; i < n; ++i) {
+    int c = (*counters)[i].load();
+    if (c == 0) zero++; else if (c == 1) once++; else multi++;
+    if (c != 1 && first_bad < 0) first_bad = i;
+  }
+  printf("PARKBURST T=%d threads=%d n=%d parked=%d/%d once=%d zero=%d multi=%d first_bad=%d ran_before_release=%d ran_on_caller=%d "
+         "parkers_done=%d live_closure_state=%d waited_ms=%d\n",
+      T, threads, n, parked_seen, want_parked, once, zero, multi, first_bad, done_before_release, inline_runs->load(),
+      parkers_done->load(), Token::live.load(), waited);
+  fflush(stdout);
+  // the verdict is the line above; leave without scheduler shutdown (a pipe that lost entries can make
+  // ~TaskScheduler spin for ever, which would only replace the concrete counts by a timeout)
+  _exit(0);
+}
+
 int main(int argc, char **argv)
 {
   if (argc < 2) return 2;
   std::string m = argv[1];
   int n = argc > 2 ? atoi(argv[2]) : 1;
   if (m == "onethread") return mode_onethread();
+  if (m == "parkburst") return mode_parkburst(n, argc > 3 ? atoi(argv[3]) : 300);
   int nt = 4;
   initTaskingSystem(nt);
   if (m == "burst") return mode_burst(n);
